@@ -357,7 +357,7 @@ func c14Multi(tx *bbolt.Tx, w *c14World, out *c14Out, kinds []c14Kind, thorough 
 	symKinds := []string{"gs-tags", "gs-grps", "setsym", "setsymraw"}
 	rows := []int{-1, 0, 1, 2, 12, 22, 31}
 	if thorough {
-		rows = []int{-1, 0, 1, 2, 3, 4, 6, 8, 12, 16, 22, 25, 31}
+		rows = []int{-1, 0, 1, 2, 6, 12, 22, 25, 31}
 	}
 	for _, k1 := range symKinds {
 		for _, k2 := range symKinds {
@@ -369,7 +369,7 @@ func c14Multi(tx *bbolt.Tx, w *c14World, out *c14Out, kinds []c14Kind, thorough 
 					for i1, p1 := range progs {
 						for i2, p2 := range progs {
 							// every merge order for the short and the Next-only programs, characteristic ones for the rest
-							all := thorough || (i1 <= 2 && i2 <= 2)
+							all := (i1 <= 2 && i2 <= 2) || (thorough && len(p1)+len(p2) <= 5)
 							if !thorough && k1 != k2 && !(i1 == 2 && i2 == 2) {
 								continue
 							}
